@@ -22,7 +22,7 @@ import (
 )
 
 func TestMain(m *testing.M) {
-	vstat.Rule("Generated schedules: the wrapped handler is a gate (reports 'entered', blocks until released, then returns or panics), so the harness owns the interleaving of starts and completions. State machine over limit 0..4 and sources {a,b,c} (built-in request.header extractor; a third of the cases stack a second limiter keyed by another header with its own limit 1..5 in front, admitted iff both have room): start(source), finish(k, normal|panic), then a drain-and-refill epilogue. Oracle: model = in-flight count per source; a start is admitted iff count < limit (both directions), rejected requests answer 429 and never enter the handler, concurrency seen inside the handler <= limit, after all requests finished every source reaches exactly the full limit again (also after panics). Real-goroutine variant (race build): unserialised goroutines hammer one limiter; the recorded acquire/release history is checked for linearizability against the counter model (porcupine). Non-trivial: >= 2 sources interleaved and >= 1 rejection and (>= 1 panic or limit >= 2).")
+	vstat.Rule("Generated schedules: the wrapped handler is a gate (reports 'entered', blocks until released, then returns or panics), so the harness owns the interleaving of starts and completions. State machine over limit 0..4 and sources {a,b,c} (built-in request.header extractor; a third of the cases stack a second limiter keyed by another header with its own limit 1..5 in front, admitted iff both have room): start(source), finish(k, normal|panic), then a drain-and-refill epilogue. Oracle: model = in-flight count per source; a start is admitted iff count < limit (both directions), rejected requests answer 429 and never enter the handler, concurrency seen inside the handler <= limit, after all requests finished every source reaches exactly the full limit again (also after panics). Real-goroutine variant (race build): unserialised goroutines hammer one limiter; the recorded acquire/release history is checked for linearizability against the counter model (porcupine). Non-trivial: >= 2 sources interleaved and >= 1 rejection and (>= 1 panic or limit >= 2). A quarter of the limiters use the stock client.ip extractor (IPv4, IPv6, zoned peers on changing ports); Wrap(same handler) is called at arbitrary points while requests are in flight.")
 	vstat.Main(m.Run)
 }
 
